@@ -4,7 +4,8 @@
    text as the FIRST call of a fresh process)]                                                    *)
 EXTENDS Naturals, Sequences, FiniteSets, TLC, Json, IOUtils
 Cases == JsonDeserialize(IOEnv.CASES)
-PoolCls == <<"ok", "parse_error", "parse_error", "parse_error", "jaqal_error", "parse_error", "import_error", "ok">>
+PoolCls == <<"ok", "parse_error", "parse_error", "parse_error", "jaqal_error", "parse_error", "import_error", "ok",
+             "ok", "ok", "ok", "jaqal_error">>
 F(name, failed) == IF failed THEN {name} ELSE {}
 PClauses(c) ==
   F("completed", Len(c.outs) # Len(c.texts))
